@@ -212,3 +212,194 @@ def targets(tier='quick'):
     T.append(Target('tempo/compute-times[fresh]', 'tempo.Tempo.compute', tempo_sm.tempo_scenario(True), post_tempo_times, RT, PROP))
     T.append(Target('tempo/compute-times[continue]', 'tempo.Tempo.compute', tempo_sm.tempo_scenario(False), post_tempo_times, RT, PROP))
     return T
+
+
+# ------------------------------------------------------------------------------------
+# MeanFieldDynamics.add: times sorted, fields and every system's states aligned with the times
+def scen_mfdyn_add(nsys, fresh):
+    def scen(ip, repo):
+        times, A, n = real_seq('times')
+        ip.assume(n >= 0)
+        fr, _, _ = real_seq('fields_re', n)
+        fi, _, _ = real_seq('fields_im', n)
+        fields = Seq(n, lambda j: uf('cx', fr.fn(j), fi.fn(j)), 'list')
+        old_t, old_f = times.copy(), fields.copy()
+        ip.add_universal(times, lambda i: z3.Implies(z3.And(i >= 0, i + 1 < n), old_t.fn(i) <= old_t.fn(i + 1)), n)
+        sysd = [] if fresh else [Obj('DynM', {'idx': k}) for k in range(nsys)]
+        if fresh:
+            ip.assume(n == 0)
+        self_ = mkobj(repo, 'dynamics.MeanFieldDynamics', _times=times, _fields=fields, _system_dynamics=sysd, _shapes=[])
+        t = Real('t_new')
+        states = [Vc('state_new_%d' % k) for k in range(nsys)]
+        fld = Vc('field_new')
+        return {'args': [self_, t, states, fld], 'self': self_, 'old_t': old_t, 'old_f': old_f, 'n': n, 't': t, 'states': states, 'fld': fld, 'seq_t': times,
+                'nsys': nsys, 'fresh': fresh, 'inputs': {'times': old_t, 't_new': t, 'systems': nsys}}
+    return scen
+
+
+def mfdyn_registry():
+    R = Registry()
+
+    @model
+    def m_parse_field(ip, args, kw):
+        r = uf('parsed_field', args[0])
+        return r
+
+    @model
+    def m_dyn_add(ip, args, kw):
+        ip.ghost.setdefault('sys_adds', []).append((args[0], args[1], args[2]))
+
+    @model
+    def m_dyn_ctor(ip, args, kw):
+        k = len(ip.ghost.setdefault('new_dyn', []))
+        o = Obj('DynM', {'idx': k, 'new': True})
+        ip.ghost['new_dyn'].append(o)
+        return o
+
+    @model
+    def m_shape(ip, args, kw):
+        return uf('shape_of_dynamics', z3.IntVal(args[0].fields['idx']))
+    R.models['dynamics._parse_field'] = m_parse_field
+    R.models['DynM.add'] = m_dyn_add
+    R.models['dynamics.Dynamics'] = m_dyn_ctor
+    R.models['DynM.shape'] = m_shape
+    R.model_properties.add('DynM.shape')
+    return R
+
+
+def post_mfdyn_add(ip, ctx, out):
+    if out.raised('AssertionError'):
+        return ip.prove('path-accounted', z3.BoolVal(True))
+    if not expect_no_other_exception(ip, out):
+        return
+    self_, n, t = ctx['self'], ctx['n'], ctx['t']
+    T2, F2 = self_.fields['_times'], self_.fields['_fields']
+    from pyvc.lib import as_seq
+    T2, F2 = as_seq(T2), as_seq(F2)
+    old_t, old_f = ctx['old_t'], ctx['old_f']
+    ip.prove('mfdyn/length', z3.And(T2.length == n + 1, F2.length == n + 1))
+    calls = ip.ghost.get('bisect') or []
+    if not calls:
+        raise Unsupported('MeanFieldDynamics.add no longer finds its insertion position by bisection: no witness for the alignment clauses')
+    seq, x, k = calls[0]
+    i = fresh_int('i')
+    for idx in (i - 1, i, i + 1, k - 1, k):
+        ip.instantiate_universals(ctx['seq_t'], idx)
+    ip.prove('mfdyn/sorted', z3.Implies(z3.And(i >= 0, i + 1 < n + 1), T2.fn(i) <= T2.fn(i + 1)))
+    ip.prove('mfdyn/field-aligned-new', z3.And(T2.fn(k) == t, F2.fn(k) == uf('parsed_field', ctx['fld'])))
+    ip.prove('mfdyn/fields-aligned-old', z3.Implies(z3.And(i >= 0, i < n),
+             z3.And(T2.fn(z3.If(i < k, i, i + 1)) == old_t.fn(i), F2.fn(z3.If(i < k, i, i + 1)) == old_f.fn(i))))
+    adds = ip.ghost.get('sys_adds', [])
+    sysd = self_.fields['_system_dynamics']
+    ok = len(sysd) == ctx['nsys'] and len(adds) == ctx['nsys'] and all(a[0] is sysd[j] and a[2] is ctx['states'][j] for j, a in enumerate(adds))
+    ip.prove('mfdyn/every-system-gets-its-own-state', z3.BoolVal(bool(ok)), {'adds': repr([(getattr(a[0], 'fields', {}).get('idx'), a[2]) for a in adds])})
+    ip.prove('mfdyn/systems-get-the-same-time', z3.And([veq(a[1], t) for a in adds] + [z3.BoolVal(True)]))
+
+
+_old_targets3 = targets
+
+
+def targets(tier='quick'):
+    T = _old_targets3(tier)
+    RM = mfdyn_registry()
+    for nsys in (1, 2, 3):
+        for fresh in (True, False):
+            T.append(Target('mfdyn/add[systems=%d,%s]' % (nsys, 'first' if fresh else 'later'), 'dynamics.MeanFieldDynamics.add', scen_mfdyn_add(nsys, fresh),
+                            post_mfdyn_add, RM, PROP, replay=lambda ob: {'func': 'mean_field_dynamics_add', 'inputs': {'obligation': ob['name']}}))
+    return T
+
+
+# ------------------------------------------------------------------------------------
+# BaseDynamics.expectations: entry j is Tr(O rho_j) for the state stored at index j, next to the time stored at index j
+MM = z3.Function('matmul', V, V, V)
+TR = z3.Function('trace', V, V)
+
+
+def expect_registry():
+    R = Registry()
+
+    def matmul(ip, a, b):
+        r = MM(a, b)
+        ip.add_pc(r != NONE)
+        return r
+    R.matmul = matmul
+
+    @model
+    def m_trace(ip, args, kw):
+        return TR(args[0])
+
+    @model
+    def m_identity(ip, args, kw):
+        return uf('identity_matrix', to_int(args[0]) if not isinstance(args[0], int) else z3.IntVal(args[0]))
+
+    @model
+    def m_array(ip, args, kw):
+        v = args[0]
+        if isinstance(v, Seq):
+            return v.copy('ndarray')
+        return uf('np_array', v)
+
+    @model
+    def m_real(ip, args, kw):
+        v = args[0]
+        if isinstance(v, Seq):
+            return Seq(v.length, lambda j: uf('real_part', v.fn(j)), 'ndarray')
+        return uf('real_part', v)
+    R.lib_models['numpy.trace'] = m_trace
+    R.lib_models['numpy.identity'] = m_identity
+    R.lib_models['numpy.array'] = m_array
+    R.lib_models['numpy.real'] = m_real
+
+    def template(ip, frame, k):
+        g = ip.ghost['expect']
+        return {'@facts': [k >= 0], 'expectations_list': Seq(k, lambda j: TR(MM(g['op'], g['states'].fn(j))), 'list')}
+    R.invariants[('dynamics.BaseDynamics.expectations', 0)] = LoopInv(template, 'expectations-loop')
+    return R
+
+
+def scen_expect(with_op, real):
+    def scen(ip, repo):
+        times, A, n = real_seq('times')
+        states, F, _ = v_seq('states', n)
+        ip.assume(n >= 1)
+        d0 = Int('dim')
+        shape = (d0, d0)
+        self_ = mkobj(repo, 'dynamics.Dynamics', _times=times, _states=states, _shape=shape)
+        op = Vc('operator') if with_op else None
+        want_op = uf('np_array', op) if with_op else uf('identity_matrix', d0)
+        if with_op:
+            ip.assume(op != NONE, 'an operator is given')
+        ip.ghost['expect'] = {'op': want_op, 'states': states.copy()}
+        return {'args': [self_], 'kwargs': ({'operator': op} if with_op else {}) | {'real': real}, 'self': self_, 'times': times.copy(), 'states': states.copy(),
+                'n': n, 'op': want_op, 'real': real, 'inputs': {'n': n, 'operator given': with_op, 'real': real}}
+    return scen
+
+
+def post_expect(ip, ctx, out):
+    if out.raised('AssertionError'):
+        return ip.prove('path-accounted', z3.BoolVal(True))
+    if not expect_no_other_exception(ip, out):
+        return
+    t, e = out.value
+    from pyvc.lib import as_seq
+    t, e = as_seq(t), as_seq(e)
+    j = fresh_int('j')
+    n = ctx['n']
+    val = TR(MM(ctx['op'], ctx['states'].fn(j)))
+    if ctx['real']:
+        val = uf('real_part', val)
+    ip.prove('dyn/expectations/aligned', z3.And(t.length == n, e.length == n,
+             z3.Implies(z3.And(j >= 0, j < n), z3.And(t.fn(j) == ctx['times'].fn(j), e.fn(j) == val))))
+
+
+_old_targets4 = targets
+
+
+def targets(tier='quick'):
+    T = _old_targets4(tier)
+    RE = expect_registry()
+    for with_op in (False, True):
+        for real in (False, True):
+            T.append(Target('dyn/expectations[operator=%s,real=%s]' % (with_op, real), 'dynamics.BaseDynamics.expectations', scen_expect(with_op, real), post_expect,
+                            RE, PROP, replay=lambda ob: {'func': 'dynamics_expectations', 'inputs': {'obligation': ob['name']}}))
+    return T
